@@ -257,8 +257,8 @@ theorem triangle_pixels_translate_partial (t : Tri) (style : TriStyle) (d : Pt)
 -- the former C07 witness (triangle (-5,-4),(-5,-1),(-1,-4), width 3, Center, moved by (-7,-9)) satisfies the guards
 example : TriGuards ⟨⟨-5, -4⟩, ⟨-5, -1⟩, ⟨-1, -4⟩⟩ ⟨some 2, some 1, 3, .center⟩ ⟨-7, -9⟩ := by decide
 
--- The saturation guards (`NoSat` in the form `PointOK`, `JoinNoSat`, `PolyNoSat`, `TriNoSat`: no saturating i32 cast in a USED
--- intersection point) are PROVED for all display-scale inputs in Props/C07/JoinsDisplayScale.lean; what remains of this line
--- (`BoxGuard`, `RowsGuard`, `TriBoxGuard`, `TriRowsGuard`) is listed there as [V].
+-- All guards of this file (`PointOK`, `JoinNoSat`, `PolyNoSat`, `TriNoSat`: no saturating i32 cast in a USED intersection
+-- point; `BoxGuard`, `RowsGuard`, `TriBoxGuard`, `TriRowsGuard`: sentinels absorbed, `rows()` not saturating) are PROVED for
+-- all display-scale inputs in Props/C07/JoinsDisplayScale.lean, which states the guard-free corollaries of the picture theorems.
 
 end EG.C07.Joins
